@@ -86,6 +86,10 @@ def load_units():
                 f.pop("loop", None)
                 f.pop("subst", None)
                 f.pop("proof", None)
+                f.pop("no_termination", None)
+                if imp.get("container"):
+                    # the imported function belongs to another type than the import container
+                    f["container_override"] = imp["container"]
                 u.fns.append(f)
     return units
 
@@ -330,7 +334,7 @@ def assemble_fn(unit, spec, idx, raw, counts):
         pname = "sat_probe_" + re.sub(r"\W+", "_", spec["path"])
         args = spec.get("probe_args", "")
         r2 = [re.sub(r"\bself\b", "s", re.sub(r"old\((\w+)\)", r"\1", c)) for c in req]
-        probes.append((pname, "    proof fn %s(s: %s%s)\n        requires\n%s        ensures false,\n    {}\n" % (pname, unit.container.split()[-1], (", " + args) if args else "", "".join("            " + c + ",\n" for c in r2))))
+        probes.append((pname, "    proof fn %s(s: %s%s)\n        requires\n%s        ensures false,\n    {}\n" % (pname, spec.get("container_override", unit.container).split()[-1], (", " + args) if args else "", "".join("            " + c + ",\n" for c in r2))))
     if spec.get("no_termination"):
         # partial correctness only for this function: stated per function in the unit file and reported as an assumption
         text = "    #[verifier::exec_allows_no_decreases_clause]\n" + "    " + text.strip("\n") + "\n"
